@@ -79,7 +79,7 @@ inline constexpr struct addr_mut_t {
 } addr_mut{};
 
 // ------------------------------------------------------------------------------------------------ tracked wrapped types
-template <int Id, int Pad, int Align, bool NxMove>
+template <int Id, int Pad, int Align, bool NxMove, bool NxCopy = true>
 struct alignas(Align) Obj {
   long v; char pad[Pad > 0 ? Pad : 1];
   static constexpr int id = Id;
@@ -88,7 +88,7 @@ struct alignas(Align) Obj {
     if (!GG().live.emplace(this, Id).second) SR_FAIL(P, "constructed_over_live", "a wrapped object was constructed at %p over a live one", (void*)this);
   }
   explicit Obj(long x) : v(x) { born(); GG().ctors++; }
-  Obj(const Obj& o) : v(o.v) { born(); GG().copies++; }
+  Obj(const Obj& o) noexcept(NxCopy) : v(o.v) { if constexpr (!NxCopy) GG().throw_point("copy constructor of the wrapped object"); o.check("copied from"); born(); GG().copies++; }
   Obj(Obj&& o) noexcept(NxMove) : v(0) {
     if constexpr (!NxMove) GG().throw_point("move constructor of the wrapped object");
     o.check("moved from");
@@ -114,6 +114,7 @@ using T1 = Obj<1, 0, 8, false>;    // 16 bytes, move may throw
 using T2 = Obj<2, 48, 8, true>;    // large
 using T3 = Obj<3, 48, 8, false>;   // large, move may throw
 using T4 = Obj<4, 0, 64, true>;    // over-aligned
+using T5 = Obj<5, 0, 8, true, false>;   // small, nothrow move, copy may throw (assigned / constructed from lvalues)
 
 template <class T>
 struct LAlloc {
@@ -160,7 +161,7 @@ template <class W>
 struct PoolRun {
   static constexpr int N = 4;
   std::optional<W> slot[N]; MSlot m[N];
-  int ops_done = 0, moves_done = 0, throws_seen = 0, heap_moves = 0, inplace_moves = 0;
+  int ops_done = 0, moves_done = 0, throws_seen = 0, heap_moves = 0, inplace_moves = 0; long expected_copies = 0;
   using TR = WTraits<W>;
 
   template <class T> void emplace_kind(int s, int how, long v) {
@@ -169,7 +170,7 @@ struct PoolRun {
       if constexpr (!TR::has_alloc_ctor) { if (how >= 2) how -= 2; }
       else if constexpr (TR::is_unique) { if (how < 2) how += 2; }    // the allocator flavour of any_unique is only built through its allocator constructors
       if (how == 0) slot[s].emplace(std::in_place_type<T>, v);
-      else if (how == 1) slot[s].emplace(T(v));
+      else if (how == 1) { if constexpr (T::id == 5) { T tmp(v); slot[s].emplace(tmp); expected_copies++; } else slot[s].emplace(T(v)); }
       else if constexpr (TR::has_alloc_ctor) {
         if (how == 2) slot[s].emplace(std::allocator_arg, LAlloc<std::byte>{}, std::in_place_type<T>, v);
         else if constexpr (TR::is_unique) slot[s].emplace(T(v), LAlloc<std::byte>{});
@@ -189,7 +190,7 @@ struct PoolRun {
   }
   void emplace(int s, int type, int how, long v) {
     if (m[s].st != EMPTY) return;
-    switch (type) { case 0: emplace_kind<T0>(s, how, v); break; case 1: emplace_kind<T1>(s, how, v); break; case 2: emplace_kind<T2>(s, how, v); break; case 3: emplace_kind<T3>(s, how, v); break; default: emplace_kind<T4>(s, how, v); break; }
+    switch (type) { case 0: emplace_kind<T0>(s, how, v); break; case 1: emplace_kind<T1>(s, how, v); break; case 2: emplace_kind<T2>(s, how, v); break; case 3: emplace_kind<T3>(s, how, v); break; case 4: emplace_kind<T4>(s, how, v); break; default: emplace_kind<T5>(s, how, v); break; }
   }
   void check_slot(int s, const char* after) {
     if (m[s].st != HOLDS) return;
@@ -236,7 +237,7 @@ struct PoolRun {
   template <class T> void assign_value_kind(int d, long v) {
     if constexpr (TR::has_assign_value) {
       try {
-        *slot[d] = T(v);
+        if constexpr (T::id == 5) { T tmp(v); *slot[d] = tmp; expected_copies++; } else *slot[d] = T(v);
         m[d].st = HOLDS; m[d].type = T::id; m[d].v = v; m[d].inplace = TR::template inplace<T>; m[d].addr = TR::addr(*slot[d]);
         SR_TR("slot%d = T%d(%ld) (value assignment)", d, T::id, v);
         check_slot(d, "value assignment");
@@ -250,7 +251,7 @@ struct PoolRun {
   }
   void assign_value(int d, int type, long v) {
     if (m[d].st == EMPTY) return;
-    switch (type) { case 0: assign_value_kind<T0>(d, v); break; case 1: assign_value_kind<T1>(d, v); break; case 2: assign_value_kind<T2>(d, v); break; case 3: assign_value_kind<T3>(d, v); break; default: assign_value_kind<T4>(d, v); break; }
+    switch (type) { case 0: assign_value_kind<T0>(d, v); break; case 1: assign_value_kind<T1>(d, v); break; case 2: assign_value_kind<T2>(d, v); break; case 3: assign_value_kind<T3>(d, v); break; case 4: assign_value_kind<T4>(d, v); break; default: assign_value_kind<T5>(d, v); break; }
   }
   void do_swap(int a, int b) {
     if constexpr (TR::has_swap) {
@@ -296,10 +297,10 @@ struct PoolRun {
       int op = (int)c.upto(10); int a = (int)c.upto(N), b = (int)c.upto(N);
       ops_done++;
       switch (op) {
-        case 0: case 1: emplace(a, (int)c.upto(5), (int)c.upto(4), (long)c.upto(1000)); break;
+        case 0: case 1: emplace(a, (int)c.upto(6), (int)c.upto(4), (long)c.upto(1000)); break;
         case 2: case 3: move_construct(a, b); break;
         case 4: case 5: move_assign(a, b); break;
-        case 6: assign_value(a, (int)c.upto(5), (long)c.upto(1000)); break;
+        case 6: assign_value(a, (int)c.upto(6), (long)c.upto(1000)); break;
         case 7: do_swap(a, b); break;
         case 8: invoke(a, (int)c.upto(3), (long)c.upto(50)); break;
         default: destroy(a); break;
@@ -316,7 +317,7 @@ template <class W> void run_pool(vk::Choice& c) {
   if (cx.failed) return;
   if (!g.live.empty()) SR_FAIL(P, "object_leaked", "%s: %zu wrapped object(s) were never destroyed although every wrapper has been destroyed", WTraits<W>::name, g.live.size());
   else if (g.ctors + g.copies + g.moves != g.dtors) SR_FAIL(P, "destroy_count", "%s: %ld constructions (%ld direct, %ld moves, %ld copies) but %ld destructions", WTraits<W>::name, g.ctors + g.copies + g.moves, g.ctors, g.moves, g.copies, g.dtors);
-  if (g.copies != 0) SR_FAIL(P, "object_copied", "%s: the wrapped object was copy-constructed %ld time(s); wrappers only ever received rvalues", WTraits<W>::name, g.copies);
+  if (g.copies != pr.expected_copies) SR_FAIL(P, "object_copied", "%s: the wrapped object was copy-constructed %ld time(s); the wrappers received %ld lvalue(s) to copy and otherwise only rvalues", WTraits<W>::name, g.copies, pr.expected_copies);
   if (g.allocs != g.deallocs || !g.blocks.empty()) SR_FAIL(P, "allocator_imbalance", "%s: %ld allocations, %ld deallocations through the supplied allocator", WTraits<W>::name, g.allocs, g.deallocs);
   cx.nontrivial = pr.moves_done >= 2 && (pr.heap_moves > 0) && (pr.inplace_moves > 0 || WTraits<W>::is_unique) ;
   if (pr.throws_seen) { cx.label("exception-propagated"); if (pr.moves_done >= 1) cx.nontrivial = true; }
